@@ -148,9 +148,17 @@ EXPORT_DIR = os.path.join(VERIF, "harness", "export")
 
 # (source file, export file) appended to BOTH overlays; the export module is re-exported at the
 # crate root through the chain of `pub use` lines below
-EXPORTS_CUR = [("src/types.rs", "types_x.rs", "verif_export")]
-EXPORTS_V3 = [("src/types.rs", "types_x_v3.rs", "verif_export")]
-ROOT_REEXPORT = "\n#[cfg(kani)]\npub use types::verif_export as vx_types;\n"
+EXPORTS_CUR = [("src/types.rs", "types_x.rs", "verif_export"),
+               ("src/tree_store/page_store/header.rs", "header_x.rs", "verif_export"),
+               ("src/tree_store/btree_base.rs", "btree_x.rs", "verif_export")]
+EXPORTS_V3 = [("src/types.rs", "types_x_v3.rs", "verif_export"),
+              ("src/tree_store/page_store/header.rs", "header_x.rs", "verif_export"),
+              ("src/tree_store/btree_base.rs", "btree_x.rs", "verif_export")]
+ROOT_REEXPORT = ("\n#[cfg(kani)]\npub use types::verif_export as vx_types;\n"
+                 "#[cfg(kani)]\npub use tree_store::vx_header;\n#[cfg(kani)]\npub use tree_store::vx_btree;\n")
+# private module chain: page_store -> tree_store -> crate root
+CHAIN = [("src/tree_store/page_store/mod.rs", "\n#[cfg(kani)]\npub use header::verif_export as vx_header;\n"),
+         ("src/tree_store/mod.rs", "\n#[cfg(kani)]\npub use page_store::vx_header;\n#[cfg(kani)]\npub use btree_base::verif_export as vx_btree;\n")]
 
 
 def v3_source():
@@ -168,6 +176,9 @@ def _append_exports(root, exports, tag):
         shutil.copy(path, dst)
         with open(os.path.join(root, src), "a") as fh:
             fh.write('\n#[cfg(kani)]\n#[path = "%s"]\npub mod %s;\n' % (dst, modname))
+    for f, text in CHAIN:
+        with open(os.path.join(root, f), "a") as fh:
+            fh.write(text)
     with open(os.path.join(root, "src", "lib.rs"), "a") as fh:
         fh.write(ROOT_REEXPORT)
 
